@@ -2,4 +2,5 @@ package main
 
 import (
 	_ "github.com/google/pprof/verifh/c04"
+	_ "github.com/google/pprof/verifh/c08"
 )
